@@ -2,8 +2,6 @@ package main
 
 import "bufio"
 
-func cmdLex(in *bufio.Reader)     { panic("todo") }
-func cmdTLex(in *bufio.Reader)    { panic("todo") }
 func cmdComb(in *bufio.Reader)    { panic("todo") }
 func cmdParse(in *bufio.Reader)   { panic("todo") }
 func cmdMemOps(in *bufio.Reader)  { panic("todo") }
